@@ -18,9 +18,9 @@ func init() { props["C17"] = runC17 }
 
 // preset table written from the README of gmars (not from config.go)
 type presetRow struct {
-	dialect                          asm.Dialect
+	dialect                         asm.Dialect
 	size, length, processes, cycles int
-	distance                         int // the README table has no such column: the usual minimum distances of these hills
+	distance                        int // the README table has no such column: the usual minimum distances of these hills
 }
 
 var readmePresets = map[string]presetRow{
@@ -35,18 +35,18 @@ var readmePresets = map[string]presetRow{
 // hand-made warriors with a known fate
 func fateWarriors(d asm.Dialect) []string {
 	w := []string{
-		"mov 0, 1\n",                                  // imp: never dies alone
-		"dat #0, #0\n",                                 // dies at once
-		"jmp 0\n",                                      // sits still forever
-		"add #4, 3\nmov 2, @2\njmp -2\ndat #0, #0\n",   // dwarf
-		"spl 0\njmp -1\n",                              // fills its process queue
-		"x djn x, #50\ndat #0, #0\n",                   // dies after ~50 cycles
-		"x djn x, #3000\ndat #0, #0\n",                 // dies after ~3000 cycles
+		"mov 0, 1\n",   // imp: never dies alone
+		"dat #0, #0\n", // dies at once
+		"jmp 0\n",      // sits still forever
+		"add #4, 3\nmov 2, @2\njmp -2\ndat #0, #0\n", // dwarf
+		"spl 0\njmp -1\n",              // fills its process queue
+		"x djn x, #50\ndat #0, #0\n",   // dies after ~50 cycles
+		"x djn x, #3000\ndat #0, #0\n", // dies after ~3000 cycles
 		"a djn a, #0\nb djn b, #4\nc jmp a, <a\ndat #0, #0\n",
 		"mov bomb, <ptr\njmp -1\nbomb dat #0, #0\nptr dat #0, #-5\n", // backwards carpet
 		"spl 2\njmp -1\nmov 0, 1\n",
 		"a djn a, #8000\nb djn b, #8000\nc djn c, #8000\ndat #0, #0\n", // dies after about 24000 cycles
-		"mov bomb, 900+MINDISTANCE\njmp -1, <-1\nbomb dat #0, #0\n",                     // where the bomb lands depends on MINDISTANCE
+		"mov bomb, 900+MINDISTANCE\njmp -1, <-1\nbomb dat #0, #0\n",    // where the bomb lands depends on MINDISTANCE
 		"mov bomb, 1000-MAXLENGTH\nbomb dat #0, #0\n",
 	}
 	if d == asm.D94 {
